@@ -78,7 +78,14 @@ func Register(p Property) { Registry[p.ID()] = p }
 
 // ------------------------------------------------------------------ paths
 
-var Root = "/verif"
+var Root = rootDir()
+
+func rootDir() string {
+	if v := os.Getenv("VERIF_ROOT"); v != "" {
+		return v
+	}
+	return "/verif"
+}
 
 func workDir() string { return filepath.Join(Root, ".work") }
 
